@@ -33,7 +33,7 @@ def tasks(tier, seed):
                             out.append(('vt.props.c02', 't3_tensordot', {'d': d, 'e': e, 'na': na, 'mode': mode, 'kind': kind,
                                                                          'seed': seed, 'k': k, 'backend': 'T3',
                                                                          'sig': 'd%d.e%d.k%d/%s/%s' % (d, e, na, mode, kind)}))
-    n = 60 if tier == 'quick' else 400
+    n = 60 if tier == 'quick' else common.thorough(400)
     for i in range(n):
         k += 1
         out.append(('vt.props.c02', 't3_struct', {'seed': seed, 'k': k, 'backend': 'T3', 'd': 1 + i % 4,
